@@ -15,11 +15,13 @@ pub struct Method {
     pub has_gen: bool,
     /// uses the trait's generic parameter U as the type of an extra trailing parameter
     pub uses_u: bool,
+    /// written as `self: &Self` instead of `&self` (same meaning)
+    pub typed_receiver: bool,
 }
 
 impl Method {
     pub fn sig(&self, with_pats: bool) -> String {
-        let mut ps = vec!["&self".to_string()];
+        let mut ps = vec![if self.typed_receiver { "self: &Self".to_string() } else { "&self".to_string() }];
         for p in &self.params {
             let pat = if with_pats || p.pk == PK::Wild { p.pat(&self.name) } else { p.name.clone() };
             ps.push(format!("{pat}: {}", p.vt.ty("V")));
@@ -103,7 +105,7 @@ pub fn gen_case(t: &mut Tape) -> Case {
                 }
             }
             let has_gen = params.iter().any(|p| p.vt == VT::Gen);
-            Method { name: format!("m{i}"), tag: format!("M{i}"), is_async: any_async && t.chance(2, 3), params, has_gen, uses_u: generic_trait && t.flip() }
+            Method { name: format!("m{i}"), tag: format!("M{i}"), is_async: any_async && t.chance(2, 3), params, has_gen, uses_u: generic_trait && t.flip(), typed_receiver: t.chance(1, 8) }
         };
         methods.push(m);
     }
@@ -180,6 +182,23 @@ pub fn gen_case(t: &mut Tape) -> Case {
         )),
     }
     src.push_str("pub struct NoProvider;\n");
+    // a provider that is Sync + 'static but not Send: nothing in the statement asks for Send
+    let nsend_field = "::core::marker::PhantomData<::std::sync::MutexGuard<'static, ()>>";
+    let probe_not_send = !(dynamic && any_async); // don't-care: async + ref/Borrow (the code adds `T: Send` there)
+    if probe_not_send {
+        if dynamic {
+            let (tr, f) = if selector == 2 { ("AsRef", "as_ref") } else { ("::core::borrow::Borrow", "borrow") };
+            src.push_str(&format!(
+                "pub struct NotSendApp {{ pub rec: Rec, pub g: {nsend_field} }}\nimpl {tr}<{dyn_ty}> for NotSendApp {{ fn {f}(&self) -> &({dyn_ty} + 'static) {{ &self.rec }} }}\n"
+            ));
+        } else {
+            src.push_str(&format!("pub struct NotSendApp {{ pub g: {nsend_field} }}\nimpl Sup for NotSendApp {{}}\n{at}impl Tr{targ} for NotSendApp {{\n"));
+            for m in &methods {
+                src.push_str(&format!("    {} {}\n", m.sig(false).replace("u: U", "u: i64"), m.body()));
+            }
+            src.push_str("}\n");
+        }
+    }
     src.push_str(&format!(
         "struct Probe<T>(PhantomData<T>);\ntrait Fallback {{ fn has(&self) -> bool {{ false }} }}\nimpl<T> Fallback for Probe<T> {{}}\nimpl<T: Tr{targ}> Probe<T> {{ fn has(&self) -> bool {{ true }} }}\n"
     ));
@@ -206,6 +225,9 @@ pub fn gen_case(t: &mut Tape) -> Case {
     let mut probes = vec![("::entrait::Impl<App>", true), ("::entrait::Impl<NoProvider>", false)];
     if dynamic || ns_provider {
         probes.push(("::entrait::Impl<NsApp>", false));
+    }
+    if probe_not_send {
+        probes.push(("::entrait::Impl<NotSendApp>", true));
     }
     for (ty, want) in probes {
         src.push_str(&format!("/*GEN*/ {{ let got = Probe::<{ty}>(PhantomData).has(); if got != {want} {{ fails.push(format!(\"`{ty}: Tr` is {{}} but should be {want}\", got)); }} }}\n"));
